@@ -5,7 +5,8 @@
  * usage: qsend <nrandom> <seed> <shard> <nshards>   |   qsend -   (scenario lines on stdin)
  *
  * scenario line (space separated key=value):
- *   m=<sender>:<rcpt>,<rcpt>..@<arrive>;...   messages; arrive = select count at which it appears (0 = in queue at start)
+ *   m=<sender>:<rcpt>,<rcpt>..@<arrive>;...   messages; arrive = select count at which it appears (0 = in queue at start);
+ *                                             a recipient token <pre>*<N><post> stands for N recipients <pre>000<post> .. (3-digit index)
  *   cl=<n> cr=<n> sl=<n> sr=<n>               concurrencylocal/remote control values, spawner bytes
  *   life=<n>                                  queuelifetime
  *   out=<letters>                             outcome per delivery attempt, in order of start (cyclic):
@@ -17,6 +18,17 @@
  *   crash=<k>:<mode>,...                      world crash before global call k of the 1st, 2nd.. incarnation (mode 0..4)
  *   fault=<proc>:<call>:<errno>               single failing call
  *   hor=<n>                                   horizon (selects) after which TERM is sent
+ *   term=<sel>,<sel>,...                      clean stops: the 1st, 2nd.. incarnation gets TERM at select <sel> (0 = none); when it then
+ *                                             exits 0 the daemon is started again on the same queue (restart after a CLEAN stop)
+ *   hold=<n>                                  the spawners withhold their reports while fewer than n attempts are unanswered and the
+ *                                             daemon is still issuing commands (lets the in-flight count reach the concurrency bound)
+ *
+ * generated scenarios (r = scenario number): r < nrandom: the four classic modes (r % 4: plain, multi-message, crash, fault);
+ * then nrandom/16 "bound" scenarios (limit bytes and configured concurrency over 0..255(+), up to ~270 recipients, reports withheld),
+ * nrandom/16 "multi-pass" scenarios (3-8 recipients on one channel, several passes with mixed outcomes),
+ * nrandom/40 fault sweeps (2-3 sequential messages that reuse job slots; base run, then one run per queue-file system call of
+ * qmail-send with that call failing) and nrandom/50 clean-stop sweeps (expired/young messages, low concurrency; base run, then one
+ * run per select point with TERM there, exit 0, restart on the same queue).
  *
  * output: CASE <scenario>, T <trace>, X <harness events>, D <queue dump>, END
  */
@@ -36,7 +48,8 @@ extern struct del *d[2];
 
 #define QROOT "/var/qmail/queue"
 
-typedef struct { char sender[80]; int nrcpt; char rcpt[6][80]; int arrive; int created; } smsg;
+#define MAXR 300
+typedef struct { char sender[80]; int nrcpt; char rcpt[MAXR][64]; int arrive; int created; } smsg;
 typedef struct {
   int nmsg; smsg msg[6];
   int cl, cr, sl, sr; long life;
@@ -46,13 +59,16 @@ typedef struct {
   int ncrash; struct { unsigned long k; int mode; } crash[4];
   int fproc, fcall, ferr;
   int hor;
+  int nterm; int term[6];
+  int hold;
   char text[1600];
 } scen;
 static scen S;
 
 /* ---- spawner emulation ---- */
 typedef struct { int chan, delnum, attempt; char outcome; char recip[100]; char messid[40]; int sent; } pend;
-static pend pending[1024]; static int npending;
+#define MAXPEND 8192
+static pend pending[MAXPEND]; static int npending;
 static int nattempt, nselect, nbounce, incarnation;
 static size_t cmdpos[2];
 static int sinkid[2], srcid[2];
@@ -71,7 +87,7 @@ static void parse_commands(void) {
       size_t q = p + 1; int nul = 0; size_t f[3] = { 0, 0, 0 };
       while (q < b->n && nul < 3) { if (!b->p[q]) f[nul++] = q; q++; }
       if (nul < 3) break;
-      if (npending >= 1024) { xlog("X too-many-deliveries\n"); break; }
+      if (npending >= MAXPEND) { xlog("X too-many-deliveries\n"); break; }
       pend *e = &pending[npending++];
       e->chan = c; e->delnum = b->p[p]; e->attempt = nattempt++; e->sent = 0;
       e->outcome = S.out[0] ? S.out[e->attempt % strlen(S.out)] : 'K';
@@ -115,7 +131,7 @@ static void sink_written(simproc *p, int fd) { if (p->idx == 0 && (fd == 1 || fd
 static void create_message(smsg *m, int idx) {
   char body[200]; int bl = snprintf(body, sizeof body, "Subject: m%d\n\nbody of message %d\n", idx, idx);
   int ino = sim_mkfile_ino(QROOT "/mess/%d/%d", auto_split, body, bl, 7794, 0644);
-  unsigned char env[1200]; size_t n = 0;
+  static unsigned char env[200 + MAXR * 66]; size_t n = 0;
   n += sprintf((char *)env + n, "u1000") + 1; n += sprintf((char *)env + n, "p4242") + 1;
   env[n++] = 'F'; n += sprintf((char *)env + n, "%s", m->sender) + 1;
   for (int i = 0; i < m->nrcpt; i++) { env[n++] = 'T'; n += sprintf((char *)env + n, "%s", m->rcpt[i]) + 1; }
@@ -132,22 +148,33 @@ static void create_message(smsg *m, int idx) {
 
 /* ---- the daemon's select ---- */
 static int stop_requested;
+static int term_at;                 /* select count at which this incarnation is told to stop (0 = only at the horizon) */
+static int seen_pending;            /* npending at the previous select (hold=: has the daemon issued a command since?) */
+static int last_active;             /* last select of the first incarnation at which a command, report or arrival happened */
+#define MAXSEL 4096
+static unsigned char active_sel[MAXSEL];   /* ... and the set of those selects */
+static void mark_active(void) { if (incarnation == 1) { last_active = nselect; if (nselect < MAXSEL) active_sel[nselect] = 1; } }
+static int totrcpt;
 static int daemon_select(simproc *p, int nfds, fd_set *r, fd_set *w, struct timeval *tv) {
   if (p->idx != 0) return 0;
   nselect++;
   parse_commands();
+  int newcmds = npending != seen_pending; seen_pending = npending;
+  if (newcmds) mark_active();
+  if (term_at && nselect == term_at) { xlog("X signal T (term)\n"); sim_deliver_signal(p, SIGTERM); stop_requested = 1; }
   for (int i = 0; i < S.nsig; i++) if (S.sig[i].at == nselect) {
     int sg = S.sig[i].sig == 'T' ? SIGTERM : S.sig[i].sig == 'A' ? SIGALRM : SIGHUP;
     xlog("X signal %c\n", S.sig[i].sig);
     sim_deliver_signal(p, sg);
   }
   if (nselect == S.hor) { xlog("X signal T (horizon)\n"); sim_deliver_signal(p, SIGTERM); stop_requested = 1; }
-  if (nselect > S.hor + 60) { xlog("X horizon-abort\n"); p->exitcode = -98; sim_crash_before = W.ncalls_total + 1; }
-  for (int i = 0; i < S.nmsg; i++) if (!S.msg[i].created && S.msg[i].arrive && S.msg[i].arrive <= nselect) create_message(&S.msg[i], i);
-  /* one report per select */
-  static int cand[1024]; int nc = 0;
+  if (nselect > S.hor + 60 + totrcpt) { xlog("X horizon-abort\n"); p->exitcode = -98; sim_crash_before = W.ncalls_total + 1; }
+  for (int i = 0; i < S.nmsg; i++) if (!S.msg[i].created && S.msg[i].arrive && S.msg[i].arrive <= nselect) { create_message(&S.msg[i], i); mark_active(); }
+  /* one report per select (hold=: none while the daemon is still issuing commands and fewer than `hold` attempts are unanswered) */
+  static int cand[MAXPEND]; int nc = 0;
   for (int i = 0; i < npending; i++) if (!pending[i].sent) cand[nc++] = i;
-  if (nc) {
+  if (nc) mark_active();
+  if (nc && !(S.hold > 0 && newcmds && nc < S.hold && !stop_requested)) {
     int k = S.ord == 0 ? 0 : S.ord == 1 ? nc - 1 : (int)((ordrng = ordrng * 6364136223846793005ull + 1442695040888963407ull) >> 33) % nc;
     send_report(&pending[cand[k]]);
   }
@@ -209,7 +236,7 @@ static void world_init(void) {
 static void start_incarnation(void) {
   incarnation++;
   sim_globals_restore();
-  npending = 0; nselect = 0; cmdpos[0] = cmdpos[1] = 0; stop_requested = 0;
+  npending = 0; nselect = 0; cmdpos[0] = cmdpos[1] = 0; stop_requested = 0; seen_pending = 0;
   W.nsrc = 0; W.nsink = 0; W.npipe = 0;
   simproc *p0 = sim_proc(0, "qmail-send", 500 + incarnation, 7796, "/");
   simproc *p1 = sim_proc(1, "qmail-clean", 600 + incarnation, 7794, "/");
@@ -233,6 +260,7 @@ static void start_incarnation(void) {
 
 static void dump(const char *tag) {
   hbuf d = { 0 }; sim_dump(&d, QROOT "/", 1);
+  fprintf(h_out, "X dump %s\n", tag);        /* announces the dump even when the queue is empty (no D line follows) */
   char *s = (char *)d.p; size_t n = d.n, i = 0;
   while (i < n) { size_t j = i; while (j < n && s[j] != '\n') j++; if (strncmp(s + i, "lock/", 5)) fprintf(h_out, "D %s %.*s\n", tag, (int)(j - i), s + i); i = j + 1; }
   free(d.p);
@@ -245,22 +273,29 @@ static void flush_trace(void) {
   sim_trace.n = 0;
 }
 
+static void (*after_first_incarnation)(void);    /* sweep generators: inspect the trace of the base run before it is flushed */
 static void run_scenario(void) {
   fprintf(h_out, "CASE %s\n", S.text);
-  incarnation = 0; nattempt = 0; nbounce = 0; ordrng = 88172645463325252ull;
+  incarnation = 0; nattempt = 0; nbounce = 0; ordrng = 88172645463325252ull; last_active = 0; memset(active_sel, 0, sizeof active_sel);
+  totrcpt = 0; for (int i = 0; i < S.nmsg; i++) totrcpt += S.msg[i].nrcpt;
   world_init();
   dump("init");
-  for (int inc = 0; inc < 5; inc++) {
+  for (int inc = 0; inc < 8; inc++) {
     if (inc < S.ncrash) sim_crash_before = W.ncalls_total + S.crash[inc].k;
     sim_nfaults = 0;
     if (inc == 0 && S.fcall > 0) { sim_faults[0].proc = S.fproc; sim_faults[0].callno = S.fcall; sim_faults[0].err = S.ferr; sim_nfaults = 1; }
+    term_at = inc < S.nterm ? S.term[inc] : 0;
     start_incarnation();
+    if (inc == 0 && after_first_incarnation) after_first_incarnation();
     flush_trace();
     int crashed = P[0].crashed;
     if (crashed) { sim_apply_crash(inc < S.ncrash ? S.crash[inc].mode : CR_KEEP); fprintf(h_out, "X crash-applied mode=%d\n", inc < S.ncrash ? S.crash[inc].mode : 0); }
     char tag[24]; snprintf(tag, sizeof tag, "after%d", inc + 1); dump(tag);
-    if (!crashed) break;
+    if (crashed) continue;
     /* arrivals scheduled for an incarnation that crashed are re-armed relative to the new incarnation */
+    /* a planned clean stop (term=) that ended with exit 0 is followed by a restart on the same queue */
+    if (inc < S.nterm && P[0].exitcode == 0) { fprintf(h_out, "X clean-restart\n"); continue; }
+    break;
   }
   fprintf(h_out, "END\n");
 }
@@ -277,6 +312,8 @@ static void parse_scenario(const char *line) {
     else if (!strcmp(t, "life")) S.life = atol(v); else if (!strcmp(t, "out")) snprintf(S.out, sizeof S.out, "%s", v);
     else if (!strcmp(t, "ord")) S.ord = atoi(v); else if (!strcmp(t, "bf")) snprintf(S.bf, sizeof S.bf, "%s", v);
     else if (!strcmp(t, "hor")) S.hor = atoi(v);
+    else if (!strcmp(t, "hold")) S.hold = atoi(v);
+    else if (!strcmp(t, "term")) { char *s2 = 0; for (char *u = strtok_r(v, ",", &s2); u && S.nterm < 6; u = strtok_r(0, ",", &s2)) S.term[S.nterm++] = atoi(u); }
     else if (!strcmp(t, "fault")) sscanf(v, "%d:%d:%d", &S.fproc, &S.fcall, &S.ferr);
     else if (!strcmp(t, "sig")) { char *s2 = 0; for (char *u = strtok_r(v, ",", &s2); u && S.nsig < 6; u = strtok_r(0, ",", &s2)) { char c; if (sscanf(u, "%d:%c", &S.sig[S.nsig].at, &c) == 2) S.sig[S.nsig++].sig = c; } }
     else if (!strcmp(t, "crash")) { char *s2 = 0; for (char *u = strtok_r(v, ",", &s2); u && S.ncrash < 4; u = strtok_r(0, ",", &s2)) if (sscanf(u, "%lu:%d", &S.crash[S.ncrash].k, &S.crash[S.ncrash].mode) == 2) S.ncrash++; }
@@ -289,7 +326,13 @@ static void parse_scenario(const char *line) {
         char *colon = strchr(u, ':'); if (!colon) { S.nmsg--; continue; } *colon = 0;
         snprintf(m->sender, sizeof m->sender, "%s", !strcmp(u, "-") ? "" : u);
         char *s3 = 0; m->nrcpt = 0;
-        for (char *r = strtok_r(colon + 1, ",", &s3); r && m->nrcpt < 6; r = strtok_r(0, ",", &s3)) snprintf(m->rcpt[m->nrcpt++], 80, "%s", r);
+        for (char *r = strtok_r(colon + 1, ",", &s3); r && m->nrcpt < MAXR; r = strtok_r(0, ",", &s3)) {
+          char *star = strchr(r, '*');
+          if (star && star[1] >= '0' && star[1] <= '9') {          /* <pre>*<N><post>: N generated recipients */
+            char *post = star + 1; int cnt = (int)strtol(star + 1, &post, 10);
+            for (int k = 0; k < cnt && m->nrcpt < MAXR; k++) snprintf(m->rcpt[m->nrcpt++], 64, "%.*s%03d%s", (int)(star - r), r, k, post);
+          } else snprintf(m->rcpt[m->nrcpt++], 64, "%s", r);
+        }
       }
     }
   }
@@ -318,6 +361,145 @@ static void gen_scenario(char *o, size_t osz, int mode) {
   n += snprintf(o + n, osz - n, " hor=%d", 200 + (int)h_below(400));
 }
 
+/* ---- additional scenario families (numbered after the classic ones; see the header) ---- */
+static const int edge255[] = { 0, 1, 2, 3, 4, 100, 119, 120, 126, 127, 128, 129, 130, 160, 200, 254, 255 };
+static int pick255(void) { return h_below(3) == 0 ? edge255[h_below(sizeof edge255 / sizeof edge255[0])] : (int)h_below(256); }
+static const char *outscript(char *out, int maxlen, const char *alph) {
+  int ol = 1 + h_below(maxlen), al = strlen(alph); for (int i = 0; i < ol; i++) out[i] = alph[h_below(al)]; out[ol] = 0; return out;
+}
+
+/* bound: spawner limit byte and configured concurrency over the whole byte range (and a little beyond for the configured
+ * value), more ready recipients than min(configured, announced), reports withheld until the daemon stops issuing commands */
+static void gen_bound(char *o, size_t osz) {
+  int lim[2], conf[2], nr[2]; size_t n = 0; char out[24];
+  int which = h_below(3);                         /* 0 local, 1 remote, 2 both channels loaded */
+  for (int c = 0; c < 2; c++) {
+    lim[c] = pick255(); conf[c] = h_below(5) == 0 ? 256 + (int)h_below(300) : pick255();
+    int b = lim[c] < conf[c] ? lim[c] : conf[c];
+    nr[c] = (which == c || which == 2) ? b + 1 + (int)h_below(12) : (int)h_below(3);
+    if (which == 2 && nr[c] > 140) nr[c] = 140;
+    if (nr[c] > MAXR - 20) nr[c] = MAXR - 20;
+  }
+  if (nr[0] + nr[1] == 0) nr[h_below(2)] = 1;
+  n += snprintf(o + n, osz - n, "m=%s:", senders[h_below(10) < 7 ? 0 : h_below(5)]);
+  if (nr[0]) n += snprintf(o + n, osz - n, "u*%d@h.example", nr[0]);
+  if (nr[1]) n += snprintf(o + n, osz - n, "%sr*%d@far.example", nr[0] ? "," : "", nr[1]);
+  if (h_below(3) == 0) n += snprintf(o + n, osz - n, ";s@src.example:u1@h.example,r1@far.example@%d", 1 + (int)h_below(40));
+  n += snprintf(o + n, osz - n, " out=%s ord=%d cl=%d cr=%d sl=%d sr=%d", outscript(out, 6, "KKKKZZDG"), (int)h_below(3), conf[0], conf[1], lim[0], lim[1]);
+  n += snprintf(o + n, osz - n, " hold=%d", (int[]){999, 999, 8, 40}[h_below(4)]);
+  if (h_below(6) == 0) n += snprintf(o + n, osz - n, " life=%d", (int[]){0, 1, 150}[h_below(3)]);
+  if (h_below(6) == 0) n += snprintf(o + n, osz - n, " sig=%d:%c", 2 + (int)h_below(60), "TAH"[h_below(3)]);
+  n += snprintf(o + n, osz - n, " hor=%d", 40 + nr[0] + nr[1] + (int)h_below(2 * (nr[0] + nr[1]) + 40));
+}
+
+/* multi-pass: several recipients of one message on ONE channel, mixed outcomes over several passes (marks at every position) */
+static void gen_multipass(char *o, size_t osz) {
+  size_t n = 0; char out[40];
+  int nm = 1 + (h_below(4) == 0);
+  n += snprintf(o + n, osz - n, "m=");
+  for (int i = 0; i < nm; i++) {
+    int nr = 3 + h_below(6); int loc = h_below(2);
+    n += snprintf(o + n, osz - n, "%s%s:", i ? ";" : "", senders[h_below(10) < 7 ? 0 : h_below(5)]);
+    if (h_below(2)) n += snprintf(o + n, osz - n, loc ? "u*%d@h.example" : "r*%d@far.example", nr);     /* equal-length addresses */
+    else for (int j = 0; j < nr; j++) n += snprintf(o + n, osz - n, "%s%.*s%d%s", j ? "," : "", 1 + (int)h_below(9), "recipient", j, loc ? "@h.example" : (h_below(2) ? "@far.example" : "@other.example"));
+    if (h_below(5) == 0) n += snprintf(o + n, osz - n, ",%s", rcpts[h_below(6)]);
+    if (i) n += snprintf(o + n, osz - n, "@%d", 1 + (int)h_below(40));
+  }
+  n += snprintf(o + n, osz - n, " out=%s ord=%d cl=%d cr=%d sl=%d sr=%d", outscript(out, 14, "KKZZZZDDGB"), (int)h_below(3), 1 + (int)h_below(9), 1 + (int)h_below(9), 1 + (int)h_below(9), 1 + (int)h_below(9));
+  if (h_below(3) == 0) n += snprintf(o + n, osz - n, " hold=%d", (int[]){2, 4, 99}[h_below(3)]);
+  if (h_below(4) == 0) n += snprintf(o + n, osz - n, " life=%d", (int[]){0, 1, 150, 2000}[h_below(4)]);
+  if (h_below(3) == 0) n += snprintf(o + n, osz - n, " sig=%d:A,%d:%c", 5 + (int)h_below(30), 10 + (int)h_below(60), "AAH"[h_below(3)]);
+  if (h_below(4) == 0) n += snprintf(o + n, osz - n, " crash=%d:%d", 120 + (int)h_below(900), (int)h_below(5));
+  n += snprintf(o + n, osz - n, " hor=%d", 150 + (int)h_below(250));
+}
+
+/* base of a fault sweep: 2-3 messages that arrive one after the other (a later one usually after the earlier has left the
+ * queue, so that job slots, delivery slots and message numbers are reused), mostly successful outcomes */
+static void gen_faultbase(char *o, size_t osz) {
+  size_t n = 0; char out[24]; int nm = 2 + h_below(2), at = 0;
+  n += snprintf(o + n, osz - n, "m=");
+  for (int i = 0; i < nm; i++) {
+    int nr = 1 + h_below(3); int base = h_below(6);
+    n += snprintf(o + n, osz - n, "%s%s:", i ? ";" : "", senders[h_below(10) < 7 ? 0 : h_below(5)]);
+    for (int j = 0; j < nr; j++) n += snprintf(o + n, osz - n, "%s%s", j ? "," : "", rcpts[(base + j * (1 + h_below(2))) % 6]);
+    if (i) { at += h_below(4) == 0 ? 1 + (int)h_below(6) : 10 + (int)h_below(25); n += snprintf(o + n, osz - n, "@%d", at); }
+  }
+  n += snprintf(o + n, osz - n, " out=%s ord=%d cl=%d cr=%d sl=%d sr=%d", outscript(out, 6, "KKKKKKZDB"), (int)h_below(3), 1 + (int)h_below(3), 1 + (int)h_below(3), 1 + (int)h_below(5), 1 + (int)h_below(5));
+  if (h_below(5) == 0) n += snprintf(o + n, osz - n, " life=%d", (int[]){0, 1, 150}[h_below(3)]);
+  if (h_below(6) == 0) n += snprintf(o + n, osz - n, " bf=%s", (const char *[]){"1", "10", "01"}[h_below(3)]);
+  n += snprintf(o + n, osz - n, " hor=%d", at + 50 + (int)h_below(60));
+}
+
+/* base of a clean-stop sweep: few messages with more recipients than delivery slots, often already expired when retried */
+static void gen_termbase(char *o, size_t osz) {
+  size_t n = 0; char out[24]; int nm = 1 + (h_below(3) == 0);
+  n += snprintf(o + n, osz - n, "m=");
+  for (int i = 0; i < nm; i++) {
+    int nr = 2 + h_below(4); int base = h_below(6); int kind = h_below(3);
+    n += snprintf(o + n, osz - n, "%s%s:", i ? ";" : "", senders[h_below(10) < 7 ? 0 : h_below(5)]);
+    if (kind == 0) n += snprintf(o + n, osz - n, "u*%d@h.example", nr);
+    else if (kind == 1) n += snprintf(o + n, osz - n, "r*%d@far.example", nr);
+    else for (int j = 0; j < nr; j++) n += snprintf(o + n, osz - n, "%s%s", j ? "," : "", rcpts[(base + j) % 6]);
+    if (i) n += snprintf(o + n, osz - n, "@%d", 1 + (int)h_below(20));
+  }
+  n += snprintf(o + n, osz - n, " out=%s ord=%d cl=%d cr=%d sl=%d sr=%d", outscript(out, 8, "KKZZZDDG"), (int)h_below(3), 1 + (int)h_below(2), 1 + (int)h_below(2), 1 + (int)h_below(4), 1 + (int)h_below(4));
+  n += snprintf(o + n, osz - n, " life=%d", (int[]){0, 0, 1, 150, 604800}[h_below(5)]);
+  if (h_below(3) == 0) n += snprintf(o + n, osz - n, " hold=%d", (int[]){1, 2, 9}[h_below(3)]);
+  if (h_below(5) == 0) n += snprintf(o + n, osz - n, " bf=%s", (const char *[]){"1", "10", "01"}[h_below(3)]);
+  n += snprintf(o + n, osz - n, " hor=%d", 120 + (int)h_below(120));   /* the start-up scan of mess/ takes about 95 selects; retries come after it */
+}
+
+/* the queue-file system calls of qmail-send in the base run (fault sweep): every call that names, or works on a descriptor
+ * of, a file below info/ local/ remote/ bounce/ todo/ */
+static int sweep_calls[8192], sweep_ncalls, sweep_all, sweep_total, sweep_last_active; static unsigned char sweep_active[MAXSEL];
+static int qfile(const char *path) { return !strncmp(path, "info/", 5) || !strncmp(path, "local/", 6) || !strncmp(path, "remote/", 7) || !strncmp(path, "bounce/", 7) || !strncmp(path, "todo/", 5); }
+static void collect_calls(void) {
+  char *s = (char *)sim_trace.p; size_t n = sim_trace.n, i = 0; int isq[SIM_MAXFD]; memset(isq, 0, sizeof isq);
+  sweep_ncalls = 0; sweep_total = P[0].ncalls; sweep_last_active = last_active; memcpy(sweep_active, active_sel, sizeof sweep_active);
+  while (i < n) {
+    size_t j = i; while (j < n && s[j] != '\n') j++;
+    char line[400]; size_t l = j - i < sizeof line - 1 ? j - i : sizeof line - 1; memcpy(line, s + i, l); line[l] = 0; i = j + 1;
+    int k, fd; char op[40], arg[200];
+    if (sscanf(line, "P0 close %d", &fd) == 1) { if (fd >= 0 && fd < SIM_MAXFD) isq[fd] = 0; continue; }
+    if (sscanf(line, "P0 #%d %39s %199s", &k, op, arg) != 3) continue;
+    int hit = 0;
+    if (qfile(arg)) { hit = 1; char *ar = strstr(line, "-> "); if (!strncmp(op, "open", 4) && ar) { fd = atoi(ar + 3); if (fd >= 0 && fd < SIM_MAXFD) isq[fd] = 1; } }
+    else if ((!strcmp(op, "read") || !strcmp(op, "write") || !strcmp(op, "fsync") || !strcmp(op, "fstat")) && arg[0] >= '0' && arg[0] <= '9') { fd = atoi(arg); hit = fd >= 0 && fd < SIM_MAXFD && isq[fd]; }
+    if ((hit || sweep_all) && sweep_ncalls < 8192 && (!sweep_ncalls || sweep_calls[sweep_ncalls - 1] != k)) sweep_calls[sweep_ncalls++] = k;
+  }
+}
+
+static void run_line(char *line) { parse_scenario(line); run_scenario(); }
+
+static void sweep_fault(char *base, int cap, int all) {
+  static char line[4000];
+  sweep_all = all; after_first_incarnation = collect_calls; run_line(base); after_first_incarnation = 0;
+  int nc = sweep_ncalls; static int calls[8192]; memcpy(calls, sweep_calls, sizeof(int) * nc);
+  /* at most `cap` variants, spread evenly over the calls (seeded offset) */
+  int step = nc > cap ? (nc + cap - 1) / cap : 1; int off = step > 1 ? (int)h_below(step) : 0;
+  static const int errs[] = { EIO, EIO, EIO, ENOMEM, -1, ENOSPC };
+  for (int i = off; i < nc; i += step) {
+    snprintf(line, sizeof line, "%s fault=0:%d:%d", base, calls[i], errs[h_below(6)]);
+    run_line(line);
+  }
+}
+
+static void sweep_term(char *base, int cap, int twice) {
+  static char line[4000];
+  after_first_incarnation = collect_calls; sweep_all = 0; run_line(base); after_first_incarnation = 0;
+  /* TERM at every select at which (or right after which) a command, report or arrival happened, and at every 16th idle one */
+  int last = sweep_last_active + 2; if (last > S.hor) last = S.hor; if (last >= MAXSEL) last = MAXSEL - 1;
+  static int ks[MAXSEL]; int nk = 0;
+  for (int k = 1; k <= last; k++) if (sweep_active[k] || sweep_active[k - 1] || k % 16 == 0) ks[nk++] = k;
+  int step = nk > cap ? (nk + cap - 1) / cap : 1; int off = step > 1 ? (int)h_below(step) : 0;
+  for (int i = off; i < nk; i += step) {
+    if (twice && h_below(4) == 0) snprintf(line, sizeof line, "%s term=%d,%d", base, ks[i], 1 + (int)h_below(last));
+    else if (h_below(8) == 0) snprintf(line, sizeof line, "%s term=%d crash=0:0,%d:%d", base, ks[i], 60 + (int)h_below(500), (int)h_below(5));   /* clean stop, restart, then a crash */
+    else snprintf(line, sizeof line, "%s term=%d", base, ks[i]);
+    run_line(line);
+  }
+}
+
 int main(int argc, char **argv) {
   h_init_out();
   SIM_REGISTER(qs); SIM_REGISTER(qc); sim_globals_snapshot();
@@ -334,6 +516,19 @@ int main(int argc, char **argv) {
     h_seed(seed * 1000003ull + r);
     gen_scenario(line, 4000, r % 4);
     parse_scenario(line); run_scenario();
+  }
+  /* the additional families; family f has cnt[f] members, member i runs on shard (i + f) % nshards */
+  int thorough = nrandom >= 8000;
+  int cnt[4] = { nrandom / 16, nrandom / 16, nrandom / 40, nrandom / 50 };
+  for (int f = 0, r = nrandom; f < 4; f++) for (int i = 0; i < cnt[f]; i++, r++) {
+    if ((i + 5 * f) % nshards != shard) continue;
+    h_seed(seed * 1000003ull + r);
+    switch (f) {
+      case 0: gen_bound(line, 1500); run_line(line); break;
+      case 1: gen_multipass(line, 1500); run_line(line); break;
+      case 2: gen_faultbase(line, 1500); sweep_fault(line, thorough ? 100 : 60, thorough && i % 4 == 0); break;
+      case 3: gen_termbase(line, 1500); sweep_term(line, thorough ? 60 : 50, thorough); break;
+    }
   }
   fflush(h_out);
   return 0;
